@@ -21,7 +21,9 @@ func NewIndex(starts, ends []int) *Index {
 	}
 	events := make([]event, 0, len(starts)+len(ends))
 	for i := range starts {
-		// TODO(amit): Check that start<end
+		if starts[i] >= ends[i] {
+			continue // Empty or inverted interval, covers no position.
+		}
 		events = append(events, event{i, starts[i], true})
 		events = append(events, event{i, ends[i], false})
 	}
